@@ -62,6 +62,23 @@ func hostileOriginValues(o OriginSpec) []string {
 		pre + strings.Repeat("a.", 200) + hostS,
 		pre + strings.Repeat("a", 300) + "." + hostS,
 	}
+	// one byte of the host replaced (last, first, middle) by its neighbours and by structural bytes
+	if !o.IP6 && len(o.Host) > 0 {
+		for _, pos := range []int{len(o.Host) - 1, 0, len(o.Host) / 2} {
+			b := o.Host[pos]
+			for _, nb := range []byte{b - 1, b + 1, '.', '-', '0', '9', 'a', 'z', '_'} {
+				if nb == b {
+					continue
+				}
+				h := o.Host[:pos] + string(nb) + o.Host[pos+1:]
+				v := pre + h
+				if o.Port != 0 {
+					v += ":" + itoa(o.Port)
+				}
+				out = append(out, v)
+			}
+		}
+	}
 	return out
 }
 
